@@ -143,5 +143,9 @@ def run(chk, prog):
     # (stencil moment conditions and gate agreement decided under C04 R1/R2; re-evaluated here)
     from .common import reeval
     reeval(chk, prog, "C04", lambda i: i["rule"] in ("R1", "R2"), "R6", "R6-fokker-planck-moments", 10)
+    # ---- RD: dimensional consistency of the quantities this property depends on (sa/dims.py) ----------------------------------------
+    from . import dimrules
+    nrd = dimrules.run(chk, prog, "RD")
+    chk.floor("RD-requirements", nrd or 0, 1)
     chk.notes.append("C05: step order and grid chaining from the constructor bindings, freshness of the wake offsets at the kick, copy-without-arithmetic. "
                      "NOT decided: that the stationary profile satisfies the Haissinski relation.")
